@@ -283,15 +283,18 @@ class NumpyArrayWrapper(object):
             array = self.read_array(unpickler, ensure_native_byte_order)
 
         # Manage array subclass case
-        if hasattr(array, "__array_prepare__") and self.subclass not in (
+        if self.subclass not in (
             unpickler.np.ndarray,
             unpickler.np.memmap,
         ):
             # We need to reconstruct another subclass
-            new_array = unpickler.np.core.multiarray._reconstruct(
-                self.subclass, (0,), "b"
-            )
-            return new_array.__array_prepare__(array)
+            if hasattr(array, "__array_prepare__"):
+                new_array = unpickler.np.core.multiarray._reconstruct(
+                    self.subclass, (0,), "b"
+                )
+                return new_array.__array_prepare__(array)
+            # __array_prepare__ was removed in numpy 2
+            return array.view(self.subclass)
         else:
             return array
 
